@@ -335,6 +335,7 @@ class SpecEnv(object):
         order_of = U("order_of", VL, VL)
         canon = U("canon", VL, VL)
         int_str = U("int_str", Int, Bytes)
+        sent_part = U("sent_part", Bytes, Bytes, Bytes)
 
         def p_be32(ctx, n):
             t = be32(zint(n))
@@ -392,6 +393,7 @@ class SpecEnv(object):
             self.fact(z3.And(zdecomp(t) == zseq(d), zvalid(t)))
             return SBytes(t)
         P["zcomp"] = p_zcomp
+        P["sent_part"] = lambda ctx, a, b: SBytes(sent_part(zseq(a), zseq(b)))
         P["zdecomp"] = lambda ctx, d: SBytes(zdecomp(zseq(d)))
         P["zvalid"] = lambda ctx, d: b2v(zvalid(zseq(d)))
 
@@ -582,7 +584,13 @@ class Ctx(object):
 
     def x_Attribute(self, e):
         o = self.ev(e.value)
-        from .engine import Obj
+        from .engine import Obj, ExcObj
+        if isinstance(o, ExcObj):
+            if e.attr == "args":
+                return tuple(o.args)
+            if e.attr in o.info:
+                return o.info[e.attr]
+            raise Unsupported("spec: attribute %s of exception object" % e.attr)
         if isinstance(o, Obj):
             v = self.engine.heap_get(self.st, o, e.attr)
             if v is None and not self.engine.field_sort(o, e.attr):
